@@ -26,7 +26,11 @@ package doc
 //@ func match
 //@   props C17
 //@   ghostarg sortAndMergeMatches n = len(b.Text)
-//   (assumed, as above: every match list passed on lies inside its block's text)
+//   (assumed, as above: every match list passed on lies inside its block's text. A full
+//   contract was attempted - per-block lists in the text, pairwise distinct arrays, earlier
+//   results untouched by later merges (sortAndMergeMatches now has the frame for that) - but
+//   the preservation goals over slices of slices did not discharge within 100 s on any
+//   solver, so they are not claimed)
 //@   skip pre:sortAndMergeMatches:in-text
 
 // doc:find shows, for every matching block, excerpts cut out of the block text at
@@ -78,6 +82,8 @@ package doc
 //@   requires [in-text] inrange(rs, n)
 //@   ensures [merged-in-text] len(result) >= 1 && inrange(result, n)
 //@   ensures [merged-apart] apart(result)
+//@   modifies rs[]
+//@   ensures [same-array] ref(result) == ref(rs)
 //@   loop 1 invariant 1 <= j && j <= len(rs) && 0 <= i && i < j
 //@   loop 1 invariant inrange(rs, n)
 //@   loop 1 invariant forall k int :: 0 <= k && k < i ==> rs[k].To <= rs[k+1].From
